@@ -116,6 +116,9 @@ def run(tier, seed):
                 mneg = float(o.misfit(xneg))
                 if np.any(xneg < 0) and mneg != math.inf:
                     problems.append(f"misfit {mneg!r} at a point with a negative component (expected +inf)")
+        damaged = distgen.intact_problems(node)
+        if damaged:
+            problems.append("composing changed a part: " + damaged[0])
         if problems:
             findings.append(Finding("C13", f"{node.kind}: {problems[0]}", {"kind": node.kind, "problem": problems[0][:30]},
                                     {"oracle": "algebra", "stimulus": stim, "problems": problems}))
@@ -196,6 +199,12 @@ def run(tier, seed):
         n2 = distgen.leaf(rnd, dd, allow=("normaldiag", "laplace", "uniform"), bounds_p=0.7)
         br = D.BayesRule([n1.obj])
         br.add_distribution(n2.obj)
+        # the parts are used again in a second composition (other order): it must see the parts as they were constructed
+        br2 = D.BayesRule([n2.obj, n1.obj])
+        damaged = distgen.intact_problems(n1, "first part") + distgen.intact_problems(n2, "second part")
+        if damaged:
+            findings.append(Finding("C13", "add_distribution / BayesRule changed a part: " + damaged[0], {"kind": "additive", "problem": "composing changed a part"},
+                                    {"parts": [n1.desc, n2.desc], "problems": damaged}))
         los = [v for v in (bounds_of(n1.obj)[0], bounds_of(n2.obj)[0]) if v is not None]
         his = [v for v in (bounds_of(n1.obj)[1], bounds_of(n2.obj)[1]) if v is not None]
         elb = np.max(np.hstack(los), axis=1, keepdims=True) if los else None
